@@ -22,3 +22,4 @@ PROP = {
     "level_note": "Trusted: long double evaluation of the identities; the 1e-7 polar-angle tolerance reflects the library snapping axes within 1.5e-8 of +z onto z (documented in DESIGN.md).",
     "assumptions": STD_ASSUME + ["axes are non-zero; the azimuth clause is judged where sin(theta) > 1e-3"],
 }
+PROP["level_text"] += ' The axis-free overload and the 2D matrix are compared with their closed forms within 4-8 eps (not bit for bit), and call histories in which the same angles and bit-identical axes recur across 2D, 3D and spherical calls are judged against a long double Rodrigues reference.'
